@@ -317,6 +317,13 @@ def run_check(mod_name, tier, seed, replay=None):
     pst = proof_status(pid) if ok else dict(obligations=0, discharged=0, axioms=[], broken=['build failed: ' + blog[-800:]],
                                              theorems=[], log=blog, checker_cmd='./setup.sh')
     model_ok = os.path.exists(os.path.join(VERIF, 'bin', 'dynmodel'))
+    # second tie: the Python text of the modelled functions, translated on this run and re-checked against the model (sourcetie.py)
+    import sourcetie, core as _core
+    try:
+        tie = sourcetie.check(pid, _core.REPO) if ok else None
+    except Exception as x:
+        tie = dict(status='broken', detail='source tie could not be evaluated: %r' % (x,))
+    tie_broken = bool(tie) and tie.get('status') == 'broken'
     chk = None
     if tier == 'thorough' and ok and not pst['broken']:
         chk = coqchk_status(pid)
@@ -395,7 +402,7 @@ def run_check(mod_name, tier, seed, replay=None):
         path = write_replay(pid, 'violation', dict(kind='failing-input', property=pid, case=small,
                                                    failures=unexplained(P, fails, known)[:5], program=[list(o) for o in p][:60]))
         violation = (path, '')
-    elif pst['broken'] or all_dis or not model_ok:
+    elif pst['broken'] or all_dis or not model_ok or tie_broken:
         # proof or correspondence broken: widen the search before giving up on a failing input
         if model_ok and tier == 'quick':
             wide = list(P.exhaustive_cases('thorough')) + [add_prelife(rnd, c, pid) for c in P.random_cases(random.Random(seed + 1), 10 * n_rand)]
@@ -420,8 +427,11 @@ def run_check(mod_name, tier, seed, replay=None):
                                  first_differing_case=c, differences=d, n_differences=stats['ndis']))
             if not model_ok:
                 what.append(dict(kind='model-binary-missing'))
-            path = write_replay(pid, 'unproved', dict(kind='no-failing-input-found', property=pid, what=what))
-            violation = (path, ' no-failing-input-found')
+            if what:
+                path = write_replay(pid, 'unproved', dict(kind='no-failing-input-found', property=pid, what=what))
+                violation = (path, ' no-failing-input-found')
+            # else: only the source-level tie is broken (the code's text changed beyond what is re-proved automatically); the
+            # theorems and the correspondence stand and the widened search found nothing: recorded, not an alarm
 
     # known findings still present?
     kf_lines = []
@@ -445,7 +455,7 @@ def run_check(mod_name, tier, seed, replay=None):
                                                  ['Print Assumptions: every theorem of properties/%s.v is closed under the global context' % pid]),
                   evaluations=stats['evaluations'], distinct_nontrivial=len(stats['nontrivial']), rule=P.rule,
                   samples=samples, exhaustive=bool(exh), exhaustive_scopes=P.scopes(tier), exhaustive_cases=len(exh),
-                  random_cases=len(rand), corpus_cases=len(corpus), widened_after_break=extra_scope,
+                  random_cases=len(rand), corpus_cases=len(corpus), widened_after_break=extra_scope, source_tie=tie,
                   operations_executed=stats['nops'], input_distribution=stats['classes'],
                   model_impl_disagreements=stats['ndis'], cases_failing_only_by_known_findings=n_known_fail,
                   known_findings_seen=kf_lines, validated_only=P.validated_only, vm_compute_crosschecked=vm,
@@ -455,6 +465,8 @@ def run_check(mod_name, tier, seed, replay=None):
     json.dump(jsonable(ev), open(os.path.join(VERIF, 'evidence', pid + '.json'), 'w'), indent=1)
     for l in kf_lines:
         print(l)
+    if tie:
+        print('SOURCE-TIE %s: %s (%s)' % (pid, tie.get('status'), tie.get('detail')))
     print('%s tier=%s seed=%d cases=%d (corpus %d, exhaustive %d, random %d) nontrivial=%d obligations=%d discharged=%d '
           'disagreements=%d known-only-failures=%d wall=%.1fs' % (pid, tier, seed, stats['evaluations'], len(corpus), len(exh), len(rand),
                                                                  len(stats['nontrivial']), pst['obligations'], pst['discharged'],
